@@ -682,6 +682,12 @@ func (x *Exec) havocLoc(st *State, sc *SpecCtx, loc string) {
 				}
 			}
 		}
+		// bookkeeping ghosts over backing arrays only change through ghost statements
+		for _, g := range x.eng.cs.Ghosts {
+			if g.Arg == "array" && !x.eng.reachesGhostSet(x.curCallee, g.Name) {
+				keepPrefixes = append(keepPrefixes, "ghost:"+g.Name)
+			}
+		}
 		st.havocWorld(keepPrefixes)
 		x.assumeGlobalInv(st)
 		return
